@@ -251,6 +251,7 @@ def run_alias(ctx: Ctx) -> RuleResult:
     if not ok:
         res.finding(f2, f2.node, 'InteractiveParser.copy does not default to deepcopy_values=True', construct='ip-copy-default')
     _immutable_api(ctx, res)
+    _immutable_no_self_store(ctx, res)
     _parseconf_writes(ctx, res)
     _construction_sites(ctx, res)
     return res
@@ -327,6 +328,27 @@ def _immutable_api(ctx: Ctx, res: RuleResult):
         res.ob(site, 'state handed on / advanced comes from the copy `%s`, never from self' % c, ok)
         if not ok:
             res.finding(f, f.node, 'the original parser\'s state is handed on or advanced: %s' % bad[:2], construct='uses-self-state')
+
+
+def _immutable_no_self_store(ctx: Ctx, res: RuleResult):
+    """No method of the immutable parser stores into self: what a fork operation computes belongs to the fork it returns."""
+    repo = ctx.repo
+    k = repo.cls(IIP)
+    for m in k.methods.values():
+        if m.name in ('__init__', '__new__', '__setstate__'):
+            continue
+        sn = m.self_name()
+        if sn is None:
+            continue
+        stores = [t for n in m.body_nodes() if isinstance(n, (ast.Assign, ast.AugAssign, ast.AnnAssign))
+                  for t in (n.targets if isinstance(n, ast.Assign) else [n.target])
+                  for x in ast.walk(t) if isinstance(x, ast.Attribute) and isinstance(x.ctx, ast.Store)
+                  and isinstance(x.value, ast.Name) and x.value.id == sn]
+        ok = not stores
+        res.ob('%s %s' % (m.loc(), m.qual), 'does not store into self', ok)
+        if not ok:
+            res.finding(m, stores[0], 'a method of the immutable parser stores into self (%s): the parser it was called on changes, and the fork it '
+                        'returns does not carry the value' % norm(stores[0]), construct='immutable-self-store:%s' % m.name)
 
 
 def _parseconf_writes(ctx: Ctx, res: RuleResult):
@@ -588,3 +610,33 @@ def _authoritative(ctx: Ctx, f: FuncInfo, call: ast.Call) -> Tuple[bool, str]:
     if any(isinstance(d, ast.Call) and isinstance(d.func, ast.Attribute) and d.func.attr == 'isupper' for d in disj) and len(disj) == 1:
         return False, 'only str.isupper()'
     return False, 'no authoritative terminal set consulted'
+
+def accepts_on_success(ctx: Ctx, res: RuleResult):
+    """clause of R-ACCEPTS-PURE"""
+    repo = ctx.repo
+    # accepts(): a terminal is recorded only on the path where its trial feed did not raise
+    ac = repo.func(IP + '.accepts')
+    tries = [t for t in ac.body_nodes() if isinstance(t, ast.Try) and any(isinstance(c, ast.Call) and isinstance(c.func, ast.Attribute)
+                                                                           and c.func.attr == 'feed_token' for s_ in t.body for c in ast.walk(s_))]
+    adds = [c for c in ac.body_nodes() if isinstance(c, ast.Call) and isinstance(c.func, ast.Attribute) and c.func.attr in ('add', 'append')]
+    ok = len(tries) == 1 and len(adds) >= 1
+    why = 'cannot find the trial feed / the recording'
+    if ok:
+        t = tries[0]
+
+        def inside(stmts, node) -> bool:
+            return any(node is x for s_ in stmts for x in ast.walk(s_))
+        for a_ in adds:
+            in_else = inside(t.orelse, a_)
+            feed_stmt_idx = next((i for i, s_ in enumerate(t.body) if any(isinstance(c, ast.Call) and isinstance(c.func, ast.Attribute)
+                                                                            and c.func.attr == 'feed_token' for c in ast.walk(s_))), None)
+            after_feed = feed_stmt_idx is not None and inside(t.body[feed_stmt_idx + 1:], a_)
+            swallowing = all(not any(isinstance(x, (ast.Raise, ast.Continue, ast.Return, ast.Break)) for s_ in h.body for x in ast.walk(s_)) for h in t.handlers)
+            after_try_ok = not swallowing and not inside([t], a_)      # handlers all leave: code after the try runs only on success
+            if not (in_else or after_feed or after_try_ok):
+                ok = False
+                why = '`%s` also runs when the trial feed raised' % norm(a_)
+    res.ob('%s %s' % (ac.loc(), ac.qual), 'accepts() records a terminal only when feeding it to the trial fork succeeded', ok)
+    if not ok:
+        res.finding(ac, ac.node, 'accepts() no longer records a terminal exactly when its trial feed succeeds (%s): it returns terminals whose '
+                    'token would be rejected' % why, construct='accepts-on-success')
